@@ -320,8 +320,23 @@ func (ex *Exec) havocAll(st *State, repoToo bool, ghostToo ...bool) {
 	}
 	st.HavExt = true
 	if repoToo {
+		exc := st.PendingExcept
+		if !st.HavRepo {
+			st.HavExcept = append([]string{}, exc...)
+		} else {
+			var both []string
+			for _, a := range st.HavExcept {
+				for _, b := range exc {
+					if a == b {
+						both = append(both, a)
+					}
+				}
+			}
+			st.HavExcept = both
+		}
 		st.HavRepo = true
 	}
+	st.PendingExcept = nil
 	if gh {
 		st.HavGhost = true
 	}
@@ -466,7 +481,15 @@ func (ex *Exec) applyContract(st *State, fr *Frame, sp *FuncSpec, fn *ssa.Functi
 	if sp.ModAll {
 		before := map[string]*Term{}
 		keep := map[string]*Term{}
-		for _, tn := range sp.PreservesTypes {
+		pres := sp.PreservesTypes
+		if sp.Extern {
+			// a dependency does not write repository types it was not handed (extern-frame assumption):
+			// what the function under verification promises to preserve survives the call
+			if top := ex.topFrame(st); top.Spec != nil {
+				pres = append(append([]string{}, pres...), top.Spec.PreservesTypes...)
+			}
+		}
+		for _, tn := range pres {
 			for class, h := range st.Heap {
 				if strings.HasPrefix(class, tn+".") {
 					keep[class] = h
@@ -486,6 +509,7 @@ func (ex *Exec) applyContract(st *State, fr *Frame, sp *FuncSpec, fn *ssa.Functi
 				}
 			}
 		}
+		st.PendingExcept = pres
 		ex.havocAll(st, true)
 		for class, h := range keep {
 			st.Heap[class] = h
@@ -495,6 +519,19 @@ func (ex *Exec) applyContract(st *State, fr *Frame, sp *FuncSpec, fn *ssa.Functi
 		}
 		if top := ex.topFrame(st); top.Spec != nil && !top.Spec.ModAll && ex.pure == nil {
 			ex.emit(st, "frame", "call:*@"+sp.Name, False, pos, top.Spec.Props)
+		}
+		if top := ex.topFrame(st); top.Spec != nil && ex.pure == nil {
+			for _, tn := range top.Spec.PreservesTypes {
+				kept := sp.Extern
+				for _, t2 := range sp.PreservesTypes {
+					if t2 == tn {
+						kept = true
+					}
+				}
+				if !kept {
+					ex.emit(st, "frame", "preserves-type:"+tn+":call:*@"+sp.Name, False, pos, top.Spec.Props)
+				}
+			}
 		}
 	}
 	for _, m := range sp.Modifies {
